@@ -266,6 +266,49 @@ pub fn run(thorough: bool) -> Report {
             }
         }
     }
+    // (7b) draws that succeeded stay drawn when the statement around them fails afterwards; a
+    // user function whose body draws is entered at every call, also twice in one expression
+    {
+        // (lines to enter, line to run, number of draws it makes, expected print if any)
+        let cases: Vec<(Vec<&str>, &str, u64)> = vec![
+            (vec![], "X = RND(1) / 0", 1),
+            (vec![], "X = RND(1) + RND(0-1)", 1),
+            (vec![], "PRINT RND(1); NOSUCH$ + 1", 1),
+            (vec![], "X = RND(1) + RND(1) + A(99)", 2),
+            (vec!["10 DEF FNR(X) = RND(X)"], "RUN", 0),
+            (vec![], "X = FNR(1) - FNR(1)", 2),
+            (vec![], "X = FNR(1) + FNR(1) + FNR(1) * FNR(2)", 4),
+            (vec![], "IF FNR(1) = FNR(1) THEN X = 1", 2),
+        ];
+        for seed in [3u64, 1 << 35] {
+            let mut s = Sess::new();
+            let _ = s.apply(&Ev::Randomize(seed));
+            let mut hist = vec![Ev::Randomize(seed)];
+            let mut m = seed % LCG_M;
+            for (lines, run, draws) in &cases {
+                for l in lines {
+                    let e = Ev::Line(l.to_string());
+                    let _ = s.apply(&e);
+                    hist.push(e);
+                }
+                let e = Ev::LineToIdle(run.to_string());
+                let _ = s.apply(&e);
+                hist.push(e);
+                for _ in 0..*draws {
+                    m = lcg_next(m);
+                }
+                let after = s.it.verif_snapshot().rng_state;
+                if after != m {
+                    rep.add(Violation {
+                        signature: format!("generator state after {:?} is not {} draws on", run, draws),
+                        detail: format!("seed {}: after {:?} the generator state is {}, the documented sequence after the draws made so far gives {}", seed, run, after, m),
+                        case: case_history(&hist, false, false),
+                    });
+                    break;
+                }
+            }
+        }
+    }
     // (8) seeding is seeding whatever the interpreter is doing: while a program awaits a reply,
     // between two statements of a running line, right after a break
     {
